@@ -47,7 +47,8 @@ def reply_to_events(meta, data, partial, rep):
         c = conv(ev)
         if c:
             out.append(c)
-    out.append({"e": "ret", "k": "none", "name": "", "s": rep["fin"][0], "t": rep["fin"][1]})
+    if not rep.get("capped"):
+        out.append({"e": "ret", "k": "none", "name": "", "s": rep["fin"][0], "t": rep["fin"][1]})
     return out
 
 
@@ -80,7 +81,7 @@ def validate(defs_path, runs, name, spec="LexTrace.tla", cfg="LexTrace.cfg", jvm
         cmd = ["timeout", "1200", "java", "-XX:+UseParallelGC", "-Xmx2g", "-Xss1g", "-Dtlc2.tool.queue.IStateQueue=StateDeque",
                "-cp", TLA_JAR, "tlc2.TLC", "-workers", "1", "-metadir", meta, "-cleanup", "-noGenerateSpecTE",
                "-config", os.path.join(SPEC, cfg), os.path.join(SPEC, spec)]
-        e = dict(ENV_BASE, DEFS=defs_path, TRACE=path)
+        e = dict(ENV_BASE, DEFS=defs_path, TRACE=path, CHECKRET="0" if cfg == "LexTraceReads.cfg" else "1")
         p = subprocess.run(cmd, cwd=SPEC, env=e, capture_output=True, text=True)
         subprocess.run(["rm", "-rf", meta])
         out = p.stdout
